@@ -334,6 +334,43 @@ def check_C11(tier, seed, t0):
         trace_module="TraceKernel.tla", trace_cfg="TraceKernel.cfg", driver_of=lambda d: "drv_matop", extra_cov=dict(exhaustive=True))
 
 
+FIXED_AUX = {"C17": ["mode=lobpcg;count=2;seed=5;kfix=1"]}
+
+
+def aux_flow(prop, tier, seed, t0, mode, count, own, models, neg, notes):
+    descs = ["mode=%s;count=%d;seed=%d" % (mode, count, seed * 10 + i) for i in range(n_of(tier, 4, 16))] + FIXED_AUX.get(prop, [])
+    return ir_flow(prop, tier, seed, descs, own, models, COMMON_ASSUME[:1] + notes, t0, trace_module="TraceAux.tla", trace_cfg="TraceAux.cfg",
+                   driver_of=lambda d: "drv_aux", neg_models=neg)
+
+
+def check_C15(tier, seed, t0):
+    own = ["NeverNaN", "StatusDocumented", "SuccessfulReturnsNev", "SuccessfulMeansTrueResidual", "UnitNorm", "Orthonormal", "OrderedByRule", "ReturnedIsWanted",
+           "DavidsonThrew", "UnknownRow"]
+    return aux_flow("C15", tier, seed, t0, "davidson", n_of(tier, 24, 120), own, [("Davidson.tla", "Davidson.cfg", 4)], [], [
+        "design model: search-space bookkeeping for all (n <= 12, nev, initial, maximal) inside the documented domain (initial >= nev, initial + correction <= n)",
+        "runs: diagonally dominant and moderately coupled symmetric matrices, dense and sparse wrappers, four rules, restarts (small maximal space), user guesses; "
+        "true residuals recomputed from the harness' own copy of A in long double",
+        "matrices with an exactly decoupled coordinate (0/0 in the diagonal preconditioner) are a recorded finding class and not in the random profile"])
+
+
+def check_C16(tier, seed, t0):
+    own = ["SvdFinite", "SingularValuesNonNegative", "SingularValuesNonIncreasing", "CountsAgree", "ColsAreMinKNconv", "FactorShapes", "DescribesMostRecentCompute",
+           "MatchesLargestSingularValues", "FactorsOrthonormal", "FactorIdentities", "UnknownRow"]
+    return aux_flow("C16", tier, seed, t0, "svd", n_of(tier, 24, 120), own, [("PartialSVD.tla", "SVD.cfg", 4)], [("PartialSVD.tla", "SVD_neg.cfg", 2)], [
+        "design model: all sequences of compute / matrix_U / matrix_V up to 6 calls: reads always describe the most recent compute (negative control: cache never invalidated)",
+        "runs: tall/wide/square, dense col-/row-major and sparse, prescribed singular values incl. exactly rank-deficient matrices, every solver used for two compute() calls "
+        "with different maxit/tol and compared bit for bit with a fresh solver"])
+
+
+def check_C17(tier, seed, t0):
+    own = ["LobFinite", "ReturnsKEigenvalues", "EigenvectorsShapeNbyK", "ResidualsShapeNbyK", "EigenvaluesAscending", "SmallestEigenvalues", "BOrthonormal",
+           "ResidualsAreAXminusBXL", "ResidualNormsBelowTol", "LobpcgThrew", "UnknownRow"]
+    return aux_flow("C17", tier, seed, t0, "lobpcg", n_of(tier, 30, 150), own, [("LOBPCG.tla", "LOBPCG.cfg", 4)], [("LOBPCG.tla", "LOBPCG_neg.cfg", 2)], [
+        "design model: shape algebra for all n <= 14, 5k < n, block-size sequences (negative control: eigenvectors() returning the Ritz coefficient matrix)",
+        "runs: sparse symmetric (also indefinite) A, tridiagonal SPD B, with/without B and a diagonal preconditioner, k in 2..3; clauses are judged only when info() reports success",
+        "block size k = 1 is a recorded finding (the inner generalized solver rejects ncv <= nev)"])
+
+
 def check_C10(tier, seed, t0):
     parts = 8
     descs = ["mode=exact;stride4=%d;part=%d;parts=%d" % (41 if tier == "quick" else 3, i, parts) for i in range(parts)]
@@ -402,7 +439,7 @@ def check_C14(tier, seed, t0):
         level="fault_enumeration" if False else "model_checking")
 
 
-CHECKS = {"C11": check_C11, "C08": check_C08, "C09": check_C09, "C10": check_C10, "C12": check_C12, "C03": check_C03, "C04": check_C04, "C06": check_C06, "C14": check_C14, "C18": check_C18, "C19": check_C19, "C05": check_C05, "C01": check_C01, "C02": check_C02, "C07": check_C07, "C13": check_C13}
+CHECKS = {"C15": check_C15, "C16": check_C16, "C17": check_C17, "C11": check_C11, "C08": check_C08, "C09": check_C09, "C10": check_C10, "C12": check_C12, "C03": check_C03, "C04": check_C04, "C06": check_C06, "C14": check_C14, "C18": check_C18, "C19": check_C19, "C05": check_C05, "C01": check_C01, "C02": check_C02, "C07": check_C07, "C13": check_C13}
 
 
 def main():
